@@ -148,6 +148,8 @@ def softmax_exp_stream(ck, np):
         c["mi"] = len(reqs)
         reqs.append(f"smexp {bb} {sb}")
         c["ci"] = None
+        c["qi2"] = len(reqs)
+        reqs.append(f"smexpq {bb} {sb}")
         if c["real"] is not None:
             c["ci"] = len(reqs)
             reqs.append(f"smexpchk {bb} {sb} " + " ".join(map(str, c["real"])))
@@ -155,8 +157,6 @@ def softmax_exp_stream(ck, np):
             # is the reference defined here?  (judge an all-zero dummy: `na` = undefined, anything else = defined)
             c["ci"] = len(reqs)
             reqs.append(f"smexpchk {bb} {sb} 0")
-            c["qi"] = len(reqs)
-            reqs.append(f"smexpq {bb} {sb}")
     outs = ck.model(reqs)
     n_eval = 0
     distinct = set()
@@ -195,6 +195,10 @@ def softmax_exp_stream(ck, np):
                         f"exp table differs from the TFLite reference (PreprocessSoftmaxScaling in double + exp_on_negative_values): {chk[2:120]}")
                 if same:
                     what += " although Model/SoftmaxTable.lean and the code agree (softmax_exp_table_spec must have failed too)"
+            elif not same and verdict == "1" and mout == "err:assert" and outs[c["qi2"]].startswith("ok 2147483648 "):
+                # the code yields the reference's table where the model (transcription of the unrepaired code) rejects the unnormalised
+                # multiplier 2^31: the finding softmax-exp-table-multiplier-2^31-rejected is repaired in this tree (verif_patches/C19-10)
+                ck.count("softmax_exp_multiplier_2^31_code_follows_reference")
             elif not same:
                 what = (f"correspondence Model/SoftmaxTable.lean vs SoftMax.generate_exp_table broken: beta {c['beta_type']} {float(c['beta'])!r}, scale {c['scale_type']} "
                         f"{float(c['scale'])!r}: implementation table != model ({mout[:40]}…), reference verdict {chk[:60]}")
@@ -204,7 +208,7 @@ def softmax_exp_stream(ck, np):
                 # the reference yields a table, the code raises
                 what = (f"SoftMax.generate_exp_table({c['beta_type']} {float(c['beta'])!r}, {c['scale_type']} {float(c['scale'])!r}) raises {c['detail']} "
                         f"where the TFLite reference yields a table ({chk[chk.find('mult'):][:40]})")
-                if c["status"] == "err:assert" and mout == "err:assert" and outs[c["qi"]].startswith("ok 2147483648 "):
+                if c["status"] == "err:assert" and mout == "err:assert" and outs[c["qi2"]].startswith("ok 2147483648 "):
                     key = "softmax-exp-table-multiplier-2^31-rejected"
             elif not same:
                 what = (f"correspondence Model/SoftmaxTable.lean vs SoftMax.generate_exp_table broken on rejected input: beta {float(c['beta'])!r}, scale "
@@ -436,6 +440,37 @@ def lut_op_streams(ck, np):
                          {"kind": "softmax16_const", "pass3_first_words": got[0][:8], "pass11_first_words": got[1][:8]}, found_input=False)
     except Exception as e:  # noqa
         ck.violation(f"get_graph_int16 on a stub int16 SOFTMAX raised {type(e).__name__}: {e}", {"kind": "softmax16_const", "error": repr(e)}, found_input=False)
+    # --- PASS 2 of the int16 SOFTMAX: the constant that rescales the input difference to the domain of EXP_LUT ([-10, 0] over 65535 codes)
+    def f32bits(v):
+        return struct.unpack("<I", struct.pack("<f", float(np.float32(v))))[0]
+    sm = []
+    for beta, sc in [(1.0, 1e-3), (1.0, math.exp(rng.uniform(math.log(2e-5), math.log(3e-3)))), (0.7, math.exp(rng.uniform(math.log(2e-5), math.log(3e-3)))),
+                     (1.0, 2.0 ** -10), (2.0, 2.0 ** -12)]:
+        try:
+            op = testutil.create_op_with_quant_tensors(Op.Softmax, [1, 1, 4, 8], [1, 1, 4, 8], datatype=DataType.int16)
+            for t, s_ in ((op.ifm, sc), (op.ofm, 1 / 32768)):
+                q = QuantizationParameters()
+                q.scale_f32, q.zero_point, q.quant_min, q.quant_max = np.float32(s_), np.int64(0), -32768, 32767
+                t.quantization = q
+            op.attrs["beta"] = float(np.float32(beta))
+            last = SoftMax(op).get_graph()
+            add3 = last.inputs[0].ops[0].inputs[0].ops[0]
+            mul2 = add3.inputs[0].ops[0]
+            const = int(np.asarray(mul2.inputs[1].values).flatten()[0])
+            sm.append((beta, sc, const))
+        except Exception as e:  # noqa
+            ck.violation(f"get_graph_int16 (beta {beta}, input scale {sc}) raised {type(e).__name__}: {e}", {"kind": "softmax16_mul", "error": repr(e)}, found_input=False)
+    sm_out = ck.model([f"sm16mul {f32bits(sc)} {f32bits(beta)}" for beta, sc, _c in sm], parallel=False)
+    for (beta, sc, const), o in zip(sm, sm_out):
+        n_eval += 1
+        ck.count("softmax16_input_multiplier_checked")
+        ref = o.split()
+        if ref[0] == "ok" and int(ref[1]) != const:
+            ck.count("softmax16_input_multiplier_differs_from_reference")
+            ck.violation(f"int16 SOFTMAX PASS 2: input multiplier constant {const} for input scale {float(np.float32(sc))!r}, beta {beta}; the TFLite reference "
+                         f"(float product, DOUBLE division by 10/65535, QuantizeMultiplier) gives {ref[1]} (shift {ref[2]})",
+                         {"kind": "softmax16_mul", "input_scale": float(np.float32(sc)), "beta": beta, "implementation": const, "reference": o},
+                         key="softmax-int16-input-rescale-divided-in-float32-numpy2")
     for k, v in stats.items():
         ck.count("lutop_float_" + k, v)
     return {"evaluations": n_eval, "distinct": len({(c["bits"], c["kind"], c["si"], c["so"], c["zi"], c["zo"]) for c in cases if c["status"] == "ok"}) + 2,
